@@ -472,7 +472,8 @@ class Interp(object):
                 return v
             if name == "const":
                 return f[1]
-            isint = isinstance(v, int) and not isinstance(v, bool)
+            # atoms (incl. the hostile 2**64) are opaque to the serializer library: only {"i": n} values are ints
+            isint = isinstance(v, int) and not isinstance(v, bool) and id(v) not in HOSTILE_ID
             if name == "succ":
                 if isint:
                     return v + 1
